@@ -61,16 +61,19 @@ LRangeRename(l, f) ==
                     IF x = 0 THEN <<>>
                     ELSE IF x \in keepIdx THEN Append(G[x-1], t1[x]) ELSE G[x-1]
             IN G[Len(t1)]
+        \* NB: bind R[i-1] once (LET values are cached; repeated R[i-1] would be exponential)
         R[i \in 0..n] ==
             IF i = 0 THEN [t |-> tagged, y |-> <<>>]
-            ELSE IF HasId(R[i-1].t, i)
-                 THEN LET j == PosOf(R[i-1].t, i)
-                      IN [t |-> Step(R[i-1].t, i),
-                          y |-> Append(R[i-1].y, P(R[i-1].t[j].k, R[i-1].t[j].v))]
-                 ELSE R[i-1]
+            ELSE LET prev == R[i-1] IN
+                 IF HasId(prev.t, i)
+                 THEN LET j == PosOf(prev.t, i)
+                      IN [t |-> Step(prev.t, i),
+                          y |-> Append(prev.y, P(prev.t[j].k, prev.t[j].v))]
+                 ELSE prev
+        final == R[n]
     IN IF n = 0 THEN [pairs |-> l, yields |-> <<>>]
-       ELSE [pairs  |-> [x \in 1..Len(R[n].t) |-> P(R[n].t[x].k, R[n].t[x].v)],
-             yields |-> R[n].y]
+       ELSE [pairs  |-> [x \in 1..Len(final.t) |-> P(final.t[x].k, final.t[x].v)],
+             yields |-> final.y]
 
 (* ---------------- map values: a list, or nil ---------------- *)
 \* A nil *Map is a DISTINCT abstract value: the code distinguishes it
